@@ -69,3 +69,10 @@ Theorem c05_ticks_and_link_replace_each_other : forall s,
      get_ticks s' = link_values (tg s) idx /\ tg s' = tg s /\ sd s' = sd s).
 Proof. intros s. split; [intros l H; apply ticks_replace_link, H | intros idx H; apply link_replaces_ticks, H]. Qed.
 Print Assumptions c05_ticks_and_link_replace_each_other.
+
+(* non-vacuity (Proofs/NonVacuous.v; concrete reachable states, by vm_compute) *)
+From NixV Require Proofs.NonVacuous.
+(* a state with a linked range dimension: refused and accepted calls both exist *)
+Example c05_dimension_hypotheses_met := NonVacuous.nv_dim.
+Check c05_dimension_hypotheses_met.
+Print Assumptions c05_dimension_hypotheses_met.
